@@ -1,2 +1,465 @@
-(* Checkers for the text-layer components (filled in as the text model grows). *)
-let clauses (_comp : string) (_h : (string, string) Hashtbl.t) (_impl : string) : (string * bool) list = []
+(* Verified-checker clauses for the text-layer components, evaluated on the
+   IMPLEMENTATION's outputs.  The deciding functions (check_tokens,
+   check_partition, check_ops_loose, check_patch, expand_all ...) are extracted
+   from Coq; parsing of the implementation's text output is glue. *)
+open Model
+open Common
+open Text_cases
+
+let parse_impl (line : string) : (string, string) Hashtbl.t =
+  let h = Hashtbl.create 8 in
+  List.iter
+    (fun t ->
+      match String.index_opt t '=' with
+      | Some p -> Hashtbl.replace h (String.sub t 0 p) (String.sub t (p + 1) (String.length t - p - 1))
+      | None -> Hashtbl.replace h t "")
+    (List.filter (fun x -> x <> "") (String.split_on_char ' ' line));
+  h
+
+let dead impl = impl = "PANIC" || impl = "TIMEOUT"
+
+(* token list from the implementation; None if some token is not a sub-slice *)
+let impl_toks (s : string) : (nat * nat) list option =
+  if s = "-" then Some []
+  else if String.contains s 'X' then None
+  else Some (parse_toks s)
+
+let clauses_tok h impl =
+  if dead impl then [ ("no_panic", false) ]
+  else
+    let ih = parse_impl impl in
+    let text = unhex (get h "text") in
+    match impl_toks (get ih "toks") with
+    | None -> [ ("no_panic", true); ("tok_lossless", false) ]
+    | Some toks -> (
+        let lossless = check_partition toks O (Model.length text) in
+        match tk_of (get h "kind") with
+        | Some k -> [ ("no_panic", true); ("tok_lossless", lossless); ("tok_shape", check_tokens k text toks) ]
+        | None -> [ ("no_panic", true); ("tok_lossless", lossless) ])
+
+let concat_bytes (l : n list list) : n list = List.concat l
+
+let parse_changes (s : string) : (string * string * string * n list) list =
+  if s = "-" then []
+  else
+    List.map
+      (fun t ->
+        match String.split_on_char ':' t with
+        | [ tg; o; n; v ] -> (tg, o, n, unhex v)
+        | _ -> failwith "bad change")
+      (String.split_on_char ',' s)
+
+let clauses_textdiff h impl =
+  if dead impl then [ ("no_panic", false) ]
+  else
+    let ih = parse_impl impl in
+    let o = unhex (get h "old") and n = unhex (get h "new") in
+    let kind = get h "tok" in
+    let ops = calls_to_ops (parse_calls (get ih "ops")) in
+    let chs = parse_changes (get ih "changes") in
+    let not_tag t = List.filter (fun (tg, _, _, _) -> tg <> t) chs in
+    let vals l = concat_bytes (List.map (fun (_, _, _, v) -> v) l) in
+    (* indices: Equal both, Delete only old, Insert only new; consecutive from 0 on each side *)
+    let rec idx_ok l oi ni =
+      match l with
+      | [] -> true
+      | (tg, a, b, _) :: r -> (
+          match tg with
+          | "E" -> a = string_of_int oi && b = string_of_int ni && idx_ok r (oi + 1) (ni + 1)
+          | "D" -> a = string_of_int oi && b = "-" && idx_ok r (oi + 1) ni
+          | "I" -> a = "-" && b = string_of_int ni && idx_ok r oi (ni + 1)
+          | _ -> false)
+    in
+    let otoks = impl_toks (get ih "otoks") and ntoks = impl_toks (get ih "ntoks") in
+    let lossless =
+      match (otoks, ntoks) with
+      | Some a, Some b -> check_partition a O (Model.length o) && check_partition b O (Model.length n)
+      | _ -> false
+    in
+    let loose =
+      match (otoks, ntoks) with
+      | Some a, Some b ->
+          let oa = Array.of_list (List.map (fun t -> str_of (tok_bytes o t)) a)
+          and na = Array.of_list (List.map (fun t -> str_of (tok_bytes n t)) b) in
+          check_ops_loose (item_oracles oa na).o_on O (ni (Array.length oa)) O (ni (Array.length na)) ops
+      | _ -> false
+    in
+    let dl = match Hashtbl.find_opt h "dl" with Some s -> parse_opt s | None -> None in
+    let nlo = get_def h "nlo" "-" in
+    [ ("no_panic", true);
+      ("tokens_lossless", lossless);
+      ("reconstruct_old", vals (not_tag "I") = o);
+      ("reconstruct_new", vals (not_tag "D") = n);
+      ("change_index_shape", idx_ok chs 0 0);
+      ("perop_same", get ih "perop_same" = "1");
+      ("ops_loose", loose);
+      ("alg_reported", get ih "alg" = get h "alg");
+      ("newline_flag", get ih "nt" = (match nlo with "0" -> "0" | "1" -> "1" | _ -> if kind = "lines" then "1" else "0")) ]
+    @ if dl = None then [ ("ops_eq_tokens_diff", get ih "ops" = get ih "direct") ] else []
+
+(* ---------- unified diff parsing (glue) ---------- *)
+(* split rendered text into lines with the CR / LF / CRLF rule of tokenize_lines *)
+let split_rendered (s : string) : string list =
+  let n = String.length s in
+  let out = ref [] and start = ref 0 and k = ref 0 in
+  while !k < n do
+    let c = s.[!k] in
+    if c = '\r' then
+      if !k + 1 < n && s.[!k + 1] = '\n' then (
+        out := String.sub s !start (!k + 2 - !start) :: !out;
+        k := !k + 2;
+        start := !k)
+      else (
+        out := String.sub s !start (!k + 1 - !start) :: !out;
+        incr k;
+        start := !k)
+    else if c = '\n' then (
+      out := String.sub s !start (!k + 1 - !start) :: !out;
+      incr k;
+      start := !k)
+    else incr k
+  done;
+  if !start < n then out := String.sub s !start (n - !start) :: !out;
+  List.rev !out
+
+exception Malformed of string
+
+let bytes_of_string (s : string) : n list = List.init (String.length s) (fun k -> n_of_int (Char.code s.[k]))
+
+let parse_range_hdr (s : string) : int * int =
+  match String.split_on_char ',' s with
+  | [ a ] -> (int_of_string a, 1)
+  | [ a; b ] -> (int_of_string a, int_of_string b)
+  | _ -> raise (Malformed "range")
+
+let marker = "\\ No newline at end of file\n"
+
+(* returns (has_file_header, hunks, marker_ok) *)
+let parse_udiff (txt : string) (want_header : bool) (hint : bool) : bool * hunk list =
+  let lines = split_rendered txt in
+  let lines, had_header =
+    match lines with
+    | a :: b :: r when want_header && a = "--- a\n" && b = "+++ b\n" -> (r, true)
+    | _ -> (lines, false)
+  in
+  let hunks = ref [] in
+  let cur : (int * int * int * int) option ref = ref None and body = ref [] in
+  let flush () =
+    match !cur with
+    | Some (a, b, c, d) ->
+        hunks := { h_oshown = ni a; h_olen = ni b; h_nshown = ni c; h_nlen = ni d; h_body = List.rev !body } :: !hunks;
+        body := []
+    | None -> if !body <> [] then raise (Malformed "body before header")
+  in
+  let rec go = function
+    | [] -> ()
+    | l :: r ->
+        if String.length l >= 4 && String.sub l 0 4 = "@@ -" then (
+          flush ();
+          (* "@@ -a[,b] +c[,d] @@\n" *)
+          (match String.split_on_char ' ' (String.sub l 0 (String.length l - 1)) with
+           | [ "@@"; o; n; "@@" ] when String.length o > 1 && o.[0] = '-' && String.length n > 1 && n.[0] = '+' ->
+               let a, b = parse_range_hdr (String.sub o 1 (String.length o - 1)) in
+               let c, d = parse_range_hdr (String.sub n 1 (String.length n - 1)) in
+               cur := Some (a, b, c, d)
+           | _ -> raise (Malformed "hunk header"));
+          if l.[String.length l - 1] <> '\n' then raise (Malformed "hunk header terminator");
+          go r)
+        else if l = marker then raise (Malformed "stray marker")
+        else if String.length l >= 1 && (l.[0] = ' ' || l.[0] = '-' || l.[0] = '+') then (
+          if !cur = None then raise (Malformed "body line outside a hunk");
+          let tg = match l.[0] with ' ' -> ChEqual | '-' -> ChDelete | _ -> ChInsert in
+          let content = String.sub l 1 (String.length l - 1) in
+          match r with
+          | m :: r' when hint && m = marker ->
+              (* the token lacked a newline: the renderer added "\n" before the marker *)
+              let len = String.length content in
+              if len = 0 || content.[len - 1] <> '\n' then raise (Malformed "marker after unterminated line");
+              let tok = String.sub content 0 (len - 1) in
+              if tok <> "" && (tok.[String.length tok - 1] = '\n' || tok.[String.length tok - 1] = '\r') then
+                raise (Malformed "marker on a line that has a newline");
+              body := (tg, bytes_of_string tok) :: !body;
+              go r'
+          | _ ->
+              let len = String.length content in
+              if len = 0 || not (content.[len - 1] = '\n' || content.[len - 1] = '\r') then
+                raise (Malformed "unterminated body line without marker");
+              body := (tg, bytes_of_string content) :: !body;
+              go r)
+        else raise (Malformed ("unexpected line: " ^ String.escaped l))
+  in
+  go lines;
+  flush ();
+  (had_header, List.rev !hunks)
+
+let clauses_udiff h impl =
+  if dead impl then [ ("no_panic", false) ]
+  else
+    let ih = parse_impl impl in
+    let o = unhex (get h "old") and n = unhex (get h "new") in
+    let out = unhex (get ih "out") in
+    let via = get h "via" in
+    let header = get h "header" = "1" in
+    let hint = if via = "fn" then true else get h "hint" = "1" in
+    let radius = ni (int_of_string (get h "radius")) in
+    let bm = bytes_mode h in
+    let base =
+      [ ("no_panic", true);
+        (* equal inputs render as the empty string; different inputs never do *)
+        ("udiff_empty_iff_equal", (out = []) = (o = n)) ]
+    in
+    let rel =
+      if via = "display" then
+        if bm then [ ("display_eq_lossy_writer", get ih "lossy_writer_same" = "1") ]
+        else [ ("display_eq_writer", get ih "writer_same" = "1") ]
+      else []
+    in
+    (* parse + strict application; for Display on bytes the text is lossy, so the
+       application is checked against the lossy lines *)
+    let applies =
+      if not hint then []
+      else
+        let lossy_display = via = "display" && bm in
+        let lines t = List.map (fun tk -> let b = tok_bytes t tk in if lossy_display then lossy b else b) (tokenize bm TkLines t) in
+        try
+          let had_header, hunks = parse_udiff (str_of out) header hint in
+          [ ("udiff_wellformed", (out = [] || had_header = header));
+            ("udiff_applies", check_patch radius hunks (lines o) (lines n)) ]
+        with Malformed _ -> [ ("udiff_wellformed", false) ]
+    in
+    base @ rel @ applies
+
+let parse_slices (s : string) : (string * n list) list =
+  if s = "-" then []
+  else
+    List.map
+      (fun t ->
+        match String.split_on_char ':' t with
+        | [ tg; v ] -> (tg, unhex v)
+        | _ -> failwith "bad slice")
+      (String.split_on_char ',' s)
+
+let clauses_remap h impl =
+  if dead impl then [ ("no_panic", false) ]
+  else
+    let ih = parse_impl impl in
+    let o = unhex (get h "old") and n = unhex (get h "new") in
+    let kind = get h "tok" in
+    let sl = parse_slices (get ih "slices") in
+    let cat f = concat_bytes (List.filter_map (fun (t, v) -> if f t then Some v else None) sl) in
+    let ops = calls_to_ops (parse_calls (get ih "ops")) in
+    let otoks = impl_toks (get ih "otoks") and ntoks = impl_toks (get ih "ntoks") in
+    (* expected bounds: the substring covering exactly the op's tokens *)
+    let exp_bounds =
+      match (otoks, ntoks) with
+      | Some a, Some b when kind <> "lines" -> (
+          let oa = Array.of_list a and na = Array.of_list b in
+          try
+            Some
+              (join ","
+                 (List.concat_map
+                    (fun op ->
+                      let ob x l = Printf.sprintf "%d:%d" (i (fst oa.(i x))) (i (snd oa.(i x + i l - 1))) in
+                      let nb x l = Printf.sprintf "%d:%d" (i (fst na.(i x))) (i (snd na.(i x + i l - 1))) in
+                      match op with
+                      | Equal (x, _, l) -> [ "E:" ^ ob x l ]
+                      | Delete (x, l, _) -> [ "D:" ^ ob x l ]
+                      | Insert (_, y, l) -> [ "I:" ^ nb y l ]
+                      | Replace (x, l1, y, l2) -> [ "D:" ^ ob x l1; "I:" ^ nb y l2 ])
+                    ops))
+          with Invalid_argument _ -> None)
+      | _ -> None
+    in
+    [ ("no_panic", true);
+      ("remap_reconstruct_old", cat (fun t -> t <> "I") = o);
+      ("remap_reconstruct_new", cat (fun t -> t <> "D") = n);
+      ("remap_nonempty", List.for_all (fun (_, v) -> v <> []) sl);
+      ("remapper_same", get ih "remapper_same" = "1") ]
+    @ if kind <> "lines" then [ ("remap_exact_substrings", exp_bounds = Some (get ih "bounds")) ] else []
+
+let clauses_slices h impl =
+  if dead impl then [ ("no_panic", false) ]
+  else
+    let ih = parse_impl impl in
+    let old = parse_list (get h "old") and nw = parse_list (get h "new") in
+    let sl =
+      match get ih "slices" with
+      | "-" -> []
+      | s ->
+          List.map
+            (fun t ->
+              match String.split_on_char ':' t with
+              | [ tg; v ] -> (tg, if v = "" then [] else List.map int_of_string (String.split_on_char '.' v))
+              | _ -> failwith "bad slice")
+            (String.split_on_char ',' s)
+    in
+    let cat f = List.concat (List.filter_map (fun (t, v) -> if f t then Some v else None) sl) in
+    [ ("no_panic", true);
+      ("remap_reconstruct_old", cat (fun t -> t <> "I") = old);
+      ("remap_reconstruct_new", cat (fun t -> t <> "D") = nw);
+      ("remap_nonempty", List.for_all (fun (_, v) -> v <> []) sl) ]
+
+let clauses_inline h impl =
+  if dead impl then [ ("no_panic", false) ]
+  else
+    let ih = parse_impl impl in
+    let o = unhex (get h "old") and n = unhex (get h "new") in
+    let bm = bytes_mode h in
+    let olines = Array.of_list (List.map (tok_bytes o) (tokenize bm TkLines o))
+    and nlines = Array.of_list (List.map (tok_bytes n) (tokenize bm TkLines n)) in
+    let ops = calls_to_ops (parse_calls (get ih "ops")) in
+    let per_op = if get ih "inline" = "-" then [] else String.split_on_char '|' (get ih "inline") in
+    let ok_shape = ref true and ok_concat = ref true and ok_emph = ref true and ok_nl = ref true and ok_missing = ref true in
+    if List.length per_op <> List.length ops then ok_shape := false
+    else
+      List.iter2
+        (fun op s ->
+          let chs = if s = "-" then [] else String.split_on_char ',' s in
+          (* expected tags / indices = those of the plain expansion *)
+          let exp =
+            match op with
+            | Equal (a, b, l) -> List.init (i l) (fun t -> ("E", Some (i a + t), Some (i b + t)))
+            | Delete (a, l, _) -> List.init (i l) (fun t -> ("D", Some (i a + t), None))
+            | Insert (_, b, l) -> List.init (i l) (fun t -> ("I", None, Some (i b + t)))
+            | Replace (a, l1, b, l2) ->
+                List.init (i l1) (fun t -> ("D", Some (i a + t), None)) @ List.init (i l2) (fun t -> ("I", None, Some (i b + t)))
+          in
+          if List.length chs <> List.length exp then ok_shape := false
+          else
+            List.iter2
+              (fun ch (etag, eo, en) ->
+                match String.split_on_char ':' ch with
+                | [ tg; oi; nidx; missing; vals ] ->
+                    let fo = function Some x -> string_of_int x | None -> "-" in
+                    if tg <> etag || oi <> fo eo || nidx <> fo en then ok_shape := false;
+                    let vs =
+                      if vals = "-" then []
+                      else
+                        List.map
+                          (fun v ->
+                            match String.split_on_char '.' v with
+                            | [ e; hx ] -> (e = "1", unhex hx)
+                            | _ -> failwith "bad inline value")
+                          (String.split_on_char ';' vals)
+                    in
+                    let line =
+                      match (eo, en) with
+                      | Some x, _ when tg <> "I" -> if x < Array.length olines then Some olines.(x) else None
+                      | _, Some y -> if y < Array.length nlines then Some nlines.(y) else None
+                      | _ -> None
+                    in
+                    (match line with
+                     | Some l ->
+                         if concat_bytes (List.map snd vs) <> l then ok_concat := false;
+                         if (missing = "1") <> not (ends_with_newline l) then ok_missing := false
+                     | None -> ok_concat := false);
+                    let is_rep = match op with Replace _ -> true | _ -> false in
+                    List.iter
+                      (fun (e, v) ->
+                        if e && ((not is_rep) || tg = "E") then ok_emph := false;
+                        if e && List.exists (fun b -> int_of_n b = 10 || int_of_n b = 13) v then ok_nl := false)
+                      vs
+                | _ -> ok_shape := false)
+              chs exp)
+        ops per_op;
+    [ ("no_panic", true);
+      ("inline_same_shape", !ok_shape);
+      ("inline_concat_line", !ok_concat);
+      ("inline_emph_only_replace", !ok_emph);
+      ("inline_no_newline_emph", !ok_nl);
+      ("inline_missing_newline", !ok_missing) ]
+
+let clauses_identify h impl =
+  if dead impl then [ ("no_panic", false) ]
+  else
+    let ih = parse_impl impl in
+    let old = Array.of_list (parse_list (get h "old")) and nw = Array.of_list (parse_list (get h "new")) in
+    let os, oe = parse_range (get h "or") and ns, ne = parse_range (get h "nr") in
+    let oids = Array.of_list (parse_list (get ih "oids")) and nids = Array.of_list (parse_list (get ih "nids")) in
+    let ranges = get ih "or" = Printf.sprintf "%d:%d" os oe && get ih "nr" = Printf.sprintf "%d:%d" ns ne in
+    let ok = ref (Array.length oids = oe - os && Array.length nids = ne - ns) in
+    if !ok then (
+      for a = 0 to oe - os - 1 do
+        for b = 0 to oe - os - 1 do
+          if (oids.(a) = oids.(b)) <> (old.(os + a) = old.(os + b)) then ok := false
+        done;
+        for b = 0 to ne - ns - 1 do
+          if (oids.(a) = nids.(b)) <> (old.(os + a) = nw.(ns + b)) then ok := false
+        done
+      done;
+      for a = 0 to ne - ns - 1 do
+        for b = 0 to ne - ns - 1 do
+          if (nids.(a) = nids.(b)) <> (nw.(ns + a) = nw.(ns + b)) then ok := false
+        done
+      done);
+    [ ("no_panic", true); ("identify_iff_eq", !ok); ("identify_ranges", ranges) ]
+
+(* C18: exhaustive ranking from the implementation's own per-candidate ratios *)
+let clauses_close h impl =
+  if dead impl then [ ("no_panic", false) ]
+  else
+    let ih = parse_impl impl in
+    let word = unhex (get h "word") in
+    let un x = if x = "e" then [] else unhex x in
+    let cands = if get h "cands" = "-" then [] else List.map un (String.split_on_char '|' (get h "cands")) in
+    let nres = int_of_string (get h "n") in
+    let cutoff = Int32.float_of_bits (Int32.of_string (get h "cutoff")) in
+    let ratios = if get ih "ratios" = "-" then [] else List.map (fun x -> Int32.of_string x) (String.split_on_char ',' (get ih "ratios")) in
+    let res = if get ih "res" = "-" then [] else List.map un (String.split_on_char '|' (get ih "res")) in
+    (* each ratio is the character-level 2L/(N+M) *)
+    let chars t = List.map (fun c -> int_of_n c.dc_cp) (decode t) in
+    let wa = Array.of_list (chars word) in
+    let ratio_ok =
+      List.length ratios = List.length cands
+      && List.for_all2
+           (fun c bits ->
+             let ca = Array.of_list (chars c) in
+             let cmp a b =
+               let a = i a and b = i b in
+               if a < Array.length wa && b < Array.length ca then Ok (wa.(a) = ca.(b)) else Panic
+             in
+             let l = i (lcs_len cmp O (ni (Array.length wa)) O (ni (Array.length ca))) in
+             let tot = Array.length wa + Array.length ca in
+             if tot = 0 then Int32.float_of_bits bits = 1.0 else bits = Core_cases.f32_bits_of_ratio (2 * l) tot)
+           cands ratios
+    in
+    let key bits =
+      let r = Int32.float_of_bits bits in
+      let k = Int64.of_float (r *. 4294967296.0) in
+      if Int64.compare k 4294967295L > 0 then 4294967295L else k
+    in
+    let expected =
+      if List.length ratios <> List.length cands then None
+      else
+        let keep = List.filter (fun (_, bits) -> Int32.float_of_bits bits >= cutoff) (List.combine cands ratios) in
+        let sorted =
+          List.stable_sort
+            (fun (c1, b1) (c2, b2) ->
+              let k = Int64.compare (key b2) (key b1) in
+              if k <> 0 then k else compare (str_of c1) (str_of c2))
+            keep
+        in
+        let rec take k l = if k <= 0 then [] else match l with [] -> [] | x :: r -> x :: take (k - 1) r in
+        Some (List.map fst (take nres sorted))
+    in
+    [ ("no_panic", true); ("close_ratio_is_2L", ratio_ok); ("close_matches_spec", expected = Some res) ]
+
+let clauses_repeat _h impl =
+  if dead impl then [ ("no_panic", false) ]
+  else
+    let ih = parse_impl impl in
+    [ ("no_panic", true); ("deterministic", get ih "all_same" = "1") ]
+
+let clauses (comp : string) (h : (string, string) Hashtbl.t) (impl : string) : (string * bool) list =
+  match comp with
+  | "tok" -> clauses_tok h impl
+  | "textdiff" -> clauses_textdiff h impl
+  | "udiff" -> clauses_udiff h impl
+  | "remap" -> clauses_remap h impl
+  | "slices" -> clauses_slices h impl
+  | "inline" -> clauses_inline h impl
+  | "identify" -> clauses_identify h impl
+  | "repeat" -> clauses_repeat h impl
+  | "close" -> clauses_close h impl
+  | "utf8" | "ws" -> if dead impl then [ ("no_panic", false) ] else [ ("no_panic", true) ]
+  | _ -> []
